@@ -153,6 +153,37 @@ def worker(states):
     return out
 
 
+
+
+def replay(path):
+    """re-run one stored case (bin/check C14 --replay <file>) against the library as it is now"""
+    import json
+    blob = json.load(open(path))
+    st = _state_of(blob['case'])
+    if st is None:
+        print('REPLAY property=C14: %s holds a recorded observation, not a case of the enumerated universe; it was rejected with: %s'
+              % (path, str(blob.get('why'))[:300]))
+        print('(the file alone does not allow the case to be re-executed: re-run bin/check C14 to observe the library again)')
+        return 2
+    out = _replay_states([st])
+    if out['bad']:
+        print('VIOLATION property=C14 replay=%s' % path)
+        print('  why: %s' % (str(out['bad'][0]['why'])[:400],))
+        return 1
+    print('REPLAY property=C14: the stored case agrees with the specification now (%s)' % path)
+    return 0
+
+
+def _state_of(case):
+    if all(k in case for k in ('heap', 'root', 'ops', 'pred')):
+        return dict(heap=case['heap'], root=case['root'], ops=case['ops'], pred=case['pred'], phase=1)
+    return None
+
+
+def _replay_states(states):
+    return worker(states)
+
+
 def rand_path(rng, cells):
     def s(x):
         return {'k': 'str', 's': x}
